@@ -233,6 +233,67 @@ def run(check, mirror, tier):
             jobs.append(lambda c, crate=crate, tag=tag, setup_ym=setup_ym, ky=ky, km=km: decide(
                 c, crate, "no_panic/ym_duration_literal/%d_%d/%s" % (ky, km, tag), setup_ym, no_post, replay_ym_literal, rb, models=c14.MODELS,
                 enums=c14.ENUMS, describe=desc, budget_s=600, min_paths=1, timeout_ms=20000, known_predicates=KNOWN_PRED))
+    # --- the lexer's scanning loops over the input text terminate: every iteration consumes a character --------------------------------
+    import rsenum as _rs
+    crate_fp = MirCrate(mirror, ["feel-parser", "feel"], overflow_checks=True)
+    lf = _rs.struct_fields(mirror.read("feel-parser/src/lexer.rs"), "Lexer")
+    NL = 5
+    check.bounds.append("lexer loops: input of 0..%d symbolic characters, cursor at 0; loop bound = input length + 3 visits per block (every iteration must "
+                        "consume a character, so a longer run is a candidate non-termination witness, confirmed natively with a time limit)" % NL)
+
+    def lexer_job(fn, prefix, tag="", alphabet=None):
+        def setup(ex, st):
+            n = ex.fresh_int(st, "usize", "len", constrain=False)
+            ex.assume(st, z3.And(n.e >= len(prefix), n.e <= NL))
+            chars = []
+            for k in range(NL):
+                c = ex.fresh_int(st, "char", "c%d" % k, constrain=False)
+                ex.assume(st, z3.And(c.e >= 0, c.e <= 0x10FFFF, z3.Or(c.e < 0xD800, c.e > 0xDFFF)))
+                if k < len(prefix):
+                    ex.assume(st, c.e == ord(prefix[k]))
+                elif alphabet:
+                    ex.assume(st, z3.Or([c.e == ord(a) for a in alphabet]))
+                chars.append(c)
+            vals = {"scope": Ref(ex.new_cell(st, Opaque("Scope"), "scope")), "start_token_type": none(), "input": VecV(n.e, chars, "char"),
+                    "position": mk_int(0, "usize"), "unary_tests": mk_bool(False), "between": mk_bool(False), "type_name": mk_bool(False), "till_in": mk_bool(False)}
+            missing = [f for f in lf if f not in vals]
+            if missing:
+                raise MirUnsupported("Lexer has fields the model does not know: %s" % missing)
+            lx = Ref(ex.new_cell(st, Adt("struct", "Lexer", [vals[f] for f in lf]), "lexer"))
+            inputs = dict(len=n.e, _lexer=lx)
+            for k in range(NL):
+                inputs["c%d" % k] = chars[k].e
+            return "Lexer::" + fn, [lx], inputs
+
+        def post(ex, o, v):
+            lx = ex.read(o.st, v["_lexer"].cell, v["_lexer"].projs)
+            pos = lx.fields[lf.index("position")].e
+            return [("the cursor stays inside the input", z3.And(pos >= 0, pos <= v["len"])), ("reach:advanced", pos >= 2)]
+
+        def desc(m, v):
+            n = model_value(m, v["len"])
+            return {"text": [model_value(m, v["c%d" % k]) for k in range(n)]}
+
+        def prefer(v):
+            ok_ = lambda c: z3.Or(c == 0x2A, c == 0x2F, c == 0x20, c == 0x0A, c == 0x61, c == 0x22, c == 0x5C)
+            return z3.And([ok_(v["c%d" % k]) for k in range(NL)])
+
+        def replay(i, rb):
+            txt = "".join(chr(c) for c in i["text"])
+            expr = "1 " + txt if fn != "consume_string" else txt
+            import subprocess
+            try:
+                _, out, _ = replay_call(rb, ["feel", expr], timeout=10)
+            except subprocess.TimeoutExpired:
+                return True, "parsing %r does not return within 10 s" % expr
+            return out.startswith("PANIC"), "parsing %r -> %s" % (expr, out[:100])
+        jobs.append(lambda c: decide(c, crate_fp, "termination/lexer_%s%s" % (fn, tag), setup, post, replay, rb, models=c14.MODELS if False else [], unwind=NL + 3,
+                                     describe=desc, prefer=prefer, unwound_is_violation=True, need_reach=["reach:advanced"], max_cex=3,
+                                     budget_s=600, known_predicates=KNOWN_PRED))
+    lexer_job("consume_whitespace", "", alphabet=" \t\n\u00a0\u2003a*/")   # the white space classes are a 20-way match: a representative alphabet
+    lexer_job("consume_comment", "/*", "_block")
+    lexer_job("consume_comment", "//", "_line")
+
     # user-defined function invocation with fewer / more arguments than parameters (kernel shared with C01: no panic edge, null instead)
     import checks.C01_ops as ops
     import feelvals as fv_
